@@ -89,6 +89,8 @@ def corner_docs() -> list[str]:
         "&#0; &#8; &#9; &#11; &#12; &#13; &#14; &#31; &#x1F; &#32; &#127; &#128; &#159; &#160; &#xD7FF; &#xD800; &#xDFFF; &#xE000;\n",
         "&#xFDCF; &#xFDD0; &#xFDEF; &#xFDF0; &#xFFFD; &#xFFFE; &#xFFFF; &#x1FFFE; &#x1FFFF; &#x10FFFD; &#x10FFFE; &#x10FFFF; &#x110000; &#1114112; &#x0B; &#x7f;\n",
         "&#1234567; &#12345678; &#x123456; &#x1234567; &#X41; &#x; &#; &#xg; &amp &amp;; &AMP; &Amp;\n",
+        # a backslash in front of characters outside the BMP / outside ASCII (nothing to escape: backslash and character both stay)
+        "a \\\U0001d4b3b \\\u4e2d \\\xe9 \\\U0001f600*x* \\\ud7ff\\\ue000 \\\U0010ffff\n",
     ] + crossing_family()
 
 
